@@ -1,8 +1,1571 @@
-use serde::{Deserialize, Serialize};
+//! E1-cache — deterministic sequential cache histories against a reference model.
+//! Serves C11, C12, C13, C16, C17 and the sequential clauses of C15.  One interpreter; every
+//! oracle clause names the property whose sentence it checks (Failure.property).
+//!
+//! Determinism: H3 virtual clock (per harness thread), fixed hasher, janitor effectively parked
+//! (maintenance_chance 2^31, or 1 = on every insert), maintenance through generated ops, recording
+//! listener flushed through a FIFO sentinel.  A background janitor pass can still happen in the
+//! `maint_always` configurations (tick 50 ms); every clause below tolerates maintenance at any time.
+
+pub use crate::seqgen::*;
+
+use crate::env::*;
+use fibre_cache::error::ComputeResult;
+use std::collections::{BTreeMap, BTreeSet};
+use std::sync::atomic::{AtomicU64, Ordering};
+use std::sync::Arc;
+use std::time::Duration;
 use vcore::{CaseReport, Check, Failure};
-#[derive(Clone, Debug, Serialize, Deserialize)]
-pub struct Scenario {}
-pub fn execute(_s: &Scenario) -> Result<CaseReport, Failure> { Ok(CaseReport::new()) }
-pub fn check(_c: &mut Check) {}
-pub fn assumptions() -> Vec<String> { vec![] }
-pub fn rule_for(_p: &str) -> String { String::new() }
+
+const MS: u64 = 1_000_000;
+
+#[derive(Clone, Copy, Debug, PartialEq, Eq)]
+enum WState {
+  Live,
+  Overwritten,
+  Removed,
+  Cleared,
+  Notified(Reason),
+}
+
+#[derive(Clone, Debug)]
+struct W {
+  key: u32,
+  cost: u64,
+  n: u64,
+  /// absolute TTL deadline (ns), if any
+  ttl: Option<u64>,
+  /// last access that certainly refreshed the idle timer / last access that possibly did
+  idle_lo: u64,
+  idle_hi: u64,
+  state: WState,
+  /// index of the op during which it stopped being live
+  dead_op: Option<usize>,
+  notified: bool,
+  maint_seen: bool,
+}
+
+#[derive(Clone, Copy, PartialEq, Eq)]
+enum Refresh {
+  Definite,
+  Possible,
+  No,
+}
+
+struct Run {
+  cfg: Cfg,
+  focus: String,
+  cache: TCache,
+  ac: TAsync,
+  pool: Arc<rayon::ThreadPool>,
+  clock: Arc<AtomicU64>,
+  rec: Option<Arc<Recorder>>,
+  seen: usize,
+  lstate: Option<Arc<LoaderState>>,
+  loads_seen: usize,
+  exec: Option<Arc<Exec>>,
+  next_wid: Arc<AtomicU64>,
+  live: BTreeMap<u32, u64>,
+  w: BTreeMap<u64, W>,
+  now: u64,
+  op_i: usize,
+  burst: bool,
+  rep: CaseReport,
+  // non-triviality facts
+  dirty_keys: BTreeSet<u32>,
+  nt11: bool,
+  nt12: bool,
+  over_cap_seen: bool,
+  cost_changed: bool,
+  quiesced: bool,
+  nt15: bool,
+  reloaded_keys: BTreeSet<u32>,
+  reasons: BTreeSet<Reason>,
+  nt17: bool,
+  inconclusive: u64,
+  removed_by_op: Vec<(u32, u64)>,
+  /// keys a multi_invalidate may have removed (it returns nothing)
+  removed_maybe: Vec<(u32, u64)>,
+  /// index of the first op whose notifications have not been processed yet
+  sync_from: usize,
+  /// write events per shard that no maintenance pass has drained yet (upper bound), and whether
+  /// a shard ever had more than its 512-slot buffer holds (diagnosis for over-capacity findings)
+  pending: Vec<u32>,
+  overflowed: bool,
+}
+
+fn fail(prop: &str, api: &str, clause: &str, msg: String) -> Failure {
+  Failure::new(prop, format!("E1/cache/{api}/{clause}"), msg)
+}
+
+fn hs(a: bool, api: &str) -> String {
+  format!("{}.{}", if a { "async" } else { "sync" }, api)
+}
+
+impl Run {
+  fn build(s: &Scenario, focus: &str) -> Run {
+    let cfg = s.cfg.clone();
+    let clock = case_clock();
+    let pool = case_pool();
+    let next_wid = Arc::new(AtomicU64::new(1));
+    let mut b: TBuilder = TBuilder::new().hasher(FixedState { collide: cfg.collide }).shards(cfg.shards);
+    b = match cfg.capacity {
+      Some(c) => b.capacity(c),
+      None => b.unbounded(),
+    };
+    if let Some(t) = cfg.ttl_ms {
+      b = b.time_to_live(Duration::from_millis(t));
+    }
+    if let Some(t) = cfg.tti_ms {
+      b = b.time_to_idle(Duration::from_millis(t));
+    }
+    if let Some(t) = cfg.swr_ms {
+      b = b.stale_while_revalidate(Duration::from_millis(t));
+    }
+    let (tick, size) = WHEELS[cfg.wheel as usize % 4];
+    b = b
+      .timer_tick_duration(Duration::from_millis(tick))
+      .timer_wheel_size(size)
+      // the janitor thread only leaves `recv_timeout(tick)` / `sleep(tick)` once per tick, also after
+      // the cache is dropped: a long tick would leak one thread + cache per case
+      .janitor_tick_interval(Duration::from_millis(if cfg.maint_always { 1000 } else { 50 }))
+      .maintenance_chance(if cfg.maint_always { 1 } else { 1 << 31 })
+      .maintenance_on_introspection(cfg.introspect);
+    b = apply_policy(b, cfg.pol, cfg.capacity, cfg.shards);
+    let rec = if cfg.listener {
+      let r = Arc::new(Recorder::default());
+      b = b.eviction_listener(RecListener(r.clone()));
+      Some(r)
+    } else {
+      None
+    };
+    let mut lstate = None;
+    let mut exec = None;
+    if cfg.loader != LoaderKind::None {
+      let st = Arc::new(LoaderState { next_wid: next_wid.clone(), clock: clock.clone(), cost: cfg.cost(cfg.load_cost), log: Default::default(), cv: Default::default() });
+      lstate = Some(st.clone());
+      if cfg.loader == LoaderKind::Sync {
+        b = b.loader(move |k| st.load(k));
+      } else {
+        let ex = Exec::start(clock.clone());
+        b = b.async_loader(move |k| {
+          let st = st.clone();
+          async move { st.load(k) }
+        });
+        b = b.spawner(Arc::new(ExecSpawner(ex.clone())));
+        exec = Some(ex);
+      }
+    }
+    let cache = b.build().expect("cache builds");
+    let ac = cache.to_async();
+    let mut rep = CaseReport::new();
+    rep.class(format!("pol:{}", cfg.pol.name()));
+    rep.class(format!("shards:{}", cfg.shards));
+    rep.class(if cfg.capacity.is_some() { "bounded" } else { "unbounded" });
+    if cfg.ttl_ms.is_some() {
+      rep.class("cfg:ttl");
+    }
+    if cfg.tti_ms.is_some() {
+      rep.class("cfg:tti");
+    }
+    if cfg.swr_ms.is_some() {
+      rep.class("cfg:swr");
+    }
+    if cfg.maint_always {
+      rep.class("cfg:maint_always");
+    }
+    if cfg.listener {
+      rep.class("cfg:listener");
+    }
+    Run {
+      cfg,
+      focus: focus.to_string(),
+      cache,
+      ac,
+      pool,
+      clock,
+      rec,
+      seen: 0,
+      lstate,
+      loads_seen: 0,
+      exec,
+      next_wid,
+      live: BTreeMap::new(),
+      w: BTreeMap::new(),
+      now: T0,
+      op_i: 0,
+      burst: false,
+      rep,
+      dirty_keys: BTreeSet::new(),
+      nt11: false,
+      nt12: false,
+      over_cap_seen: false,
+      cost_changed: false,
+      quiesced: false,
+      nt15: false,
+      reloaded_keys: BTreeSet::new(),
+      reasons: BTreeSet::new(),
+      nt17: false,
+      inconclusive: 0,
+      removed_by_op: Vec::new(),
+      removed_maybe: Vec::new(),
+      sync_from: 0,
+      pending: vec![0; s.cfg.shards],
+      overflowed: false,
+    }
+  }
+
+  // ---- model helpers ---------------------------------------------------------------------
+
+  fn new_val(&self, key: u32) -> Val {
+    Val { key, wid: self.next_wid.fetch_add(1, Ordering::SeqCst), n: 0 }
+  }
+
+  fn kill(&mut self, key: u32, st: WState) {
+    if let Some(wid) = self.live.remove(&key) {
+      let op = self.op_i;
+      if let Some(w) = self.w.get_mut(&wid) {
+        w.state = st;
+        w.dead_op = Some(op);
+      }
+      self.dirty_keys.insert(key);
+    }
+  }
+
+  /// Records a completed write (insert / load) of `key`.
+  fn wrote(&mut self, key: u32, wid: u64, cost: u64, ttl: Option<u64>, at: u64) {
+    if let Some(old) = self.live.get(&key).copied() {
+      if self.w[&old].cost != cost {
+        self.cost_changed = true;
+      }
+    }
+    self.note_event(key);
+    self.kill(key, WState::Overwritten);
+    self.live.insert(key, wid);
+    self.w.insert(wid, W { key, cost, n: 0, ttl, idle_lo: at, idle_hi: at, state: WState::Live, dead_op: None, notified: false, maint_seen: false });
+    if let Some(cap) = self.cfg.capacity {
+      let total: u64 = self.live.values().map(|w| self.w[w].cost).sum();
+      if total > cap {
+        self.over_cap_seen = true;
+      }
+    }
+  }
+
+  fn note_event(&mut self, key: u32) {
+    let sh = key_hash(self.cfg.collide, key) as usize & (self.cfg.shards - 1);
+    self.pending[sh] += 1;
+    if self.pending[sh] > 512 {
+      self.overflowed = true;
+    }
+  }
+
+  fn note_drain(&mut self, key: Option<u32>, n: u32) {
+    match key {
+      Some(k) => {
+        let sh = key_hash(self.cfg.collide, k) as usize & (self.cfg.shards - 1);
+        self.pending[sh] = self.pending[sh].saturating_sub(n);
+      }
+      None => {
+        for p in self.pending.iter_mut() {
+          *p = p.saturating_sub(n);
+        }
+      }
+    }
+  }
+
+  fn global_ttl_deadline(&self) -> Option<u64> {
+    self.cfg.ttl_ms.map(|t| self.now + t * MS)
+  }
+
+  fn tti(&self) -> Option<u64> {
+    self.cfg.tti_ms.map(|t| t * MS)
+  }
+
+  fn expired_for_sure(&self, w: &W) -> Option<&'static str> {
+    if let Some(d) = w.ttl {
+      if self.now >= d {
+        return Some("ttl");
+      }
+    }
+    if let Some(t) = self.tti() {
+      if self.now >= w.idle_hi + t {
+        return Some("tti");
+      }
+    }
+    None
+  }
+
+  fn possibly_expired(&self, w: &W) -> bool {
+    w.ttl.map_or(false, |d| self.now >= d) || self.tti().map_or(false, |t| self.now >= w.idle_lo + t)
+  }
+
+  fn pending_deadlines(&self) -> Vec<u64> {
+    let mut v = BTreeSet::new();
+    for wid in self.live.values() {
+      let w = &self.w[wid];
+      if let Some(d) = w.ttl {
+        v.insert(d);
+        if let Some(g) = self.cfg.swr_ms {
+          v.insert(d + g * MS);
+        }
+      }
+      if let Some(t) = self.tti() {
+        v.insert(w.idle_lo + t);
+        v.insert(w.idle_hi + t);
+      }
+    }
+    v.into_iter().filter(|d| *d + 1 > self.now).collect()
+  }
+
+  fn advance(&mut self, a: Adv) {
+    let target = match a {
+      Adv::Ms(i) => self.now + ADV_MS[i as usize % 6] * MS,
+      Adv::Deadline { which, delta } => {
+        let ds = self.pending_deadlines();
+        if ds.is_empty() {
+          self.now + 7 * MS
+        } else {
+          let d = ds[vcore::idx(which, ds.len())];
+          self.rep.class("advance_to_deadline");
+          (d as i128 + delta as i128) as u64
+        }
+      }
+    };
+    if target > self.now {
+      self.now = target;
+      self.clock.store(target, Ordering::SeqCst);
+    }
+  }
+
+  // ---- the read oracle (C11, C12; C16 for notified values) ------------------------------------
+
+  fn check_read(&mut self, api: &str, k: u32, got: Option<&Val>, refresh: Refresh) -> Result<(), Failure> {
+    match got {
+      Some(v) => {
+        // C11: "it never returns another key's value"
+        if v.key != k {
+          return Err(fail("C11", api, "other_keys_value", format!("read of key {k} returned the value written for key {} ({v:?})", v.key)));
+        }
+        let cur = self.live.get(&k).copied();
+        if cur != Some(v.wid) {
+          // C11: "returns either nothing or the value of the most recent insert or load of that key
+          // that has not been followed by a completed remove, invalidate or clear; it never returns
+          // ... an overwritten value after the overwrite completed, or a removed value (no resurrection)"
+          return Err(match self.w.get(&v.wid).map(|w| w.state) {
+            Some(WState::Overwritten) => fail("C11", api, "returned_overwritten_value", format!("key {k}: got write {} which was overwritten (latest {:?})", v.wid, cur)),
+            Some(WState::Removed) => fail("C11", api, "returned_removed_value", format!("key {k}: got write {} which was removed/invalidated (resurrection)", v.wid)),
+            Some(WState::Cleared) => fail("C11", api, "returned_cleared_value", format!("key {k}: got write {} which was cleared (resurrection)", v.wid)),
+            // C16: "reads no longer return that value"
+            Some(WState::Notified(r)) => fail("C16", api, "notified_value_still_readable", format!("key {k}: got write {} whose removal ({r:?}) was already notified to the listener", v.wid)),
+            _ => fail("C11", api, "returned_unknown_value", format!("key {k}: got {v:?} which no completed write produced")),
+          });
+        }
+        let w = self.w[&v.wid].clone();
+        // C11: "compute/try_compute ... read-modify-writes are never lost"
+        if v.n != w.n {
+          return Err(fail("C11", api, "lost_update", format!("key {k} write {}: compute counter read {} but {} computes completed", v.wid, v.n, w.n)));
+        }
+        // C12: "No read API returns an entry at or after its expiry instant: the global or per-insert
+        // time-to-live counted from insertion, or the idle timeout counted from the last access that
+        // refreshes it (peek does not refresh)"
+        if let Some(which) = self.expired_for_sure(&w) {
+          return Err(fail("C12", api, &format!("served_expired_{which}"), format!("key {k} write {} returned at now={} ns; ttl deadline {:?}, last possible idle refresh {} + tti {:?}", v.wid, self.now, w.ttl, w.idle_hi, self.tti())));
+        }
+        if self.dirty_keys.contains(&k) {
+          self.nt11 = true;
+        }
+        if w.maint_seen && (w.ttl.is_some() || self.tti().is_some()) {
+          self.nt12 = true;
+        }
+        let now = self.now;
+        let wm = self.w.get_mut(&v.wid).unwrap();
+        match refresh {
+          Refresh::Definite => {
+            wm.idle_lo = now;
+            wm.idle_hi = now;
+          }
+          Refresh::Possible => wm.idle_hi = now,
+          Refresh::No => {}
+        }
+        Ok(())
+      }
+      None => {
+        if self.dirty_keys.contains(&k) {
+          self.nt11 = true;
+        }
+        if let Some(wid) = self.live.get(&k).copied() {
+          let w = self.w[&wid].clone();
+          if self.possibly_expired(&w) {
+            self.nt12 = true; // a read at or after a deadline of an entry the model still holds
+          } else if !self.cfg.may_forget() {
+            // C12: "An unexpired entry of an unbounded cache is not reported missing"
+            return Err(fail("C12", api, "unexpired_missing", format!("key {k} write {wid} reported missing at now={} ns although unexpired (ttl deadline {:?}, idle {}+{:?}) and the cache is unbounded", self.now, w.ttl, w.idle_lo, self.tti())));
+          } else if self.rec.is_some() && !self.burst {
+            // C16: "every removal caused by ... expiry cleanup or by capacity eviction is notified":
+            // an unexpired entry that is gone was removed by the cache; its notification must exist
+            self.sync_listener(api)?;
+            if self.live.get(&k) == Some(&wid) {
+              return Err(fail("C16", api, "missing_eviction_notification", format!("key {k} write {wid} is unexpired and no longer readable, no user op removed it, and the listener (drained) never heard of it")));
+            }
+          }
+        }
+        Ok(())
+      }
+    }
+  }
+
+  // ---- listener ---------------------------------------------------------------------------------
+
+  /// Flushes the notification queue and checks every new notification (C16).
+  fn sync_listener(&mut self, api: &str) -> Result<(), Failure> {
+    let rec = match &self.rec {
+      Some(r) => r.clone(),
+      None => return Ok(()),
+    };
+    self.note_event(SENTINEL_KEY);
+    if !flush_listener(&self.cache, &rec, &self.next_wid) {
+      self.inconclusive += 1;
+      return Ok(());
+    }
+    let new: Vec<Notif> = {
+      let g = rec.log.lock().unwrap();
+      let v = g[self.seen..].to_vec();
+      self.seen = g.len();
+      v
+    };
+    let mut invalidated_seen: BTreeSet<u64> = BTreeSet::new();
+    for n in new.iter().filter(|n| n.key != SENTINEL_KEY) {
+      self.reasons.insert(n.reason);
+      self.rep.class(format!("notif:{:?}", n.reason));
+      let wid = n.val.wid;
+      // C16: "Every notification delivered to the eviction listener corresponds to one actual
+      // removal: that key was resident with that value"
+      let w = match self.w.get(&wid) {
+        Some(w) if w.key == n.key && n.val.key == n.key => w.clone(),
+        _ => return Err(fail("C16", "listener", "unknown_value", format!("after {api}: notification {n:?} carries a value no completed write stored under that key"))),
+      };
+      // C16: "no removal is notified twice"
+      if w.notified {
+        return Err(fail("C16", "listener", "notified_twice", format!("after {api}: write {wid} of key {} notified again ({:?})", n.key, n.reason)));
+      }
+      // resident when the operations since the last drain of the listener began
+      let resident_before = w.state == WState::Live || w.dead_op.map_or(false, |d| d >= self.sync_from);
+      // (with maint_always the real janitor thread may have evicted the entry long ago and deliver
+      // its notification late, after the user overwrote/cleared the key: not decidable there)
+      if !resident_before && !self.cfg.maint_always {
+        return Err(fail("C16", "listener", "not_resident", format!("after {api}: {:?} notification for key {} write {wid}, which had already left the cache ({:?}) before this operation", n.reason, n.key, w.state)));
+      }
+      // C16: "the reason matches the cause (Capacity, Expired, Invalidated)"
+      match n.reason {
+        Reason::Invalidated => {
+          if !self.removed_by_op.contains(&(n.key, wid)) && !self.removed_maybe.contains(&(n.key, wid)) {
+            return Err(fail("C16", "listener", "invalidated_without_remove", format!("after {api}: Invalidated notification for key {} write {wid} but no remove/invalidate of it in this operation", n.key)));
+          }
+          invalidated_seen.insert(wid);
+        }
+        Reason::Expired => {
+          if !self.possibly_expired(&w) {
+            return Err(fail("C16", "listener", "expired_reason_for_unexpired", format!("after {api}: key {} write {wid} notified Expired at now={} ns but its ttl deadline is {:?} and idle deadline {:?}", n.key, self.now, w.ttl, self.tti().map(|t| w.idle_lo + t))));
+          }
+        }
+        Reason::Capacity => {
+          if !self.cfg.may_forget() {
+            return Err(fail("C16", "listener", "capacity_reason_in_unbounded_cache", format!("after {api}: key {} write {wid} notified Capacity in an unbounded cache whose policy never evicts", n.key)));
+          }
+          if self.removed_by_op.contains(&(n.key, wid)) {
+            return Err(fail("C16", "listener", "capacity_reason_for_user_remove", format!("after {api}: key {} write {wid} was removed by the user but notified Capacity", n.key)));
+          }
+        }
+      }
+      self.w.get_mut(&wid).unwrap().notified = true;
+      if w.state == WState::Live {
+        self.kill(n.key, WState::Notified(n.reason));
+      }
+      // C16: "reads no longer return that value"
+      if let Some(v) = self.cache.peek(&n.key) {
+        if v.wid == wid {
+          return Err(fail("C16", "listener", "notified_value_still_readable", format!("after {api}: key {} write {wid} notified {:?} but peek still returns it", n.key, n.reason)));
+        }
+      }
+    }
+    // C16: "When the listener keeps up with the notification queue, every removal caused by
+    // remove/invalidate ... is notified" (keeps up = fewer than 100 removals possible per operation)
+    if !self.burst {
+      for (k, wid) in &self.removed_by_op {
+        if !invalidated_seen.contains(wid) {
+          return Err(fail("C16", "listener", "missing_invalidated_notification", format!("after {api}: remove/invalidate took key {k} write {wid} out of the cache but no notification arrived (queue drained)")));
+        }
+      }
+    }
+    self.removed_by_op.clear();
+    self.removed_maybe.clear();
+    self.sync_from = self.op_i + 1;
+    Ok(())
+  }
+
+  // ---- single operations -----------------------------------------------------------------------
+
+  fn do_insert(&mut self, a: bool, k: u32, cost: u64, ttl_ms: Option<u64>) {
+    let v = self.new_val(k);
+    let wid = v.wid;
+    let deadline = match ttl_ms {
+      Some(t) => Some(self.now + t * MS),
+      None => self.global_ttl_deadline(),
+    };
+    match (a, ttl_ms) {
+      (false, None) => self.cache.insert(k, v, cost),
+      (false, Some(t)) => self.cache.insert_with_ttl(k, v, cost, Duration::from_millis(t)),
+      (true, None) => block_on(self.ac.insert(k, v, cost)),
+      (true, Some(t)) => block_on(self.ac.insert_with_ttl(k, v, cost, Duration::from_millis(t))),
+    }
+    self.wrote(k, wid, cost, deadline, self.now);
+    if self.cfg.maint_always {
+      self.note_drain(Some(k), 16);
+    }
+  }
+
+  fn do_remove(&mut self, a: bool, k: u32, inval: bool) -> Result<(), Failure> {
+    let api = hs(a, if inval { "invalidate" } else { "remove" });
+    let got: Option<Option<Val>> = match (a, inval) {
+      (false, false) => Some(self.cache.remove(&k).map(|v| (*v).clone())),
+      (true, false) => Some(block_on(self.ac.remove(&k)).map(|v| (*v).clone())),
+      (false, true) => {
+        if self.cache.invalidate(&k) {
+          None
+        } else {
+          Some(None)
+        }
+      }
+      (true, true) => {
+        if block_on(self.ac.invalidate(&k)) {
+          None
+        } else {
+          Some(None)
+        }
+      }
+    };
+    let cur = self.live.get(&k).copied();
+    match got {
+      Some(Some(v)) => {
+        // C11: the removed value is a read of the register too
+        if v.key != k || cur != Some(v.wid) {
+          return Err(fail("C11", &api, "returned_dead_value", format!("remove({k}) returned {v:?} but the latest live write is {cur:?}")));
+        }
+        self.removed_by_op.push((k, v.wid));
+      }
+      None => {
+        // invalidate() == true: something was removed
+        match cur {
+          Some(wid) => self.removed_by_op.push((k, wid)),
+          None => return Err(fail("C11", &api, "removed_absent_key", format!("invalidate({k}) returned true but no write of that key is live (resurrection)"))),
+        }
+      }
+      Some(None) => {
+        if let Some(wid) = cur {
+          let w = self.w[&wid].clone();
+          if !self.possibly_expired(&w) && !self.cfg.may_forget() {
+            // C12: "An unexpired entry of an unbounded cache is not reported missing"
+            return Err(fail("C12", &api, "unexpired_missing", format!("remove({k}) found nothing although write {wid} is unexpired and the cache is unbounded")));
+          }
+        }
+      }
+    }
+    self.kill(k, WState::Removed);
+    Ok(())
+  }
+
+  fn do_entry_or_insert(&mut self, a: bool, k: u32, cost: u64, form: u8) -> Result<(), Failure> {
+    let api = hs(a, "entry");
+    let v = self.new_val(k);
+    let my = v.wid;
+    let got: Val = if !a {
+      let e = self.cache.entry(k);
+      let r = match form % 3 {
+        0 => e.or_insert(v, cost),
+        1 => e.or_insert_with(|| v, cost),
+        _ => match e {
+          fibre_cache::Entry::Occupied(o) => o.get(),
+          fibre_cache::Entry::Vacant(vac) => vac.insert(v, cost),
+        },
+      };
+      (*r).clone()
+    } else {
+      let e = block_on(self.ac.entry(k));
+      let r = match form % 3 {
+        0 => e.or_insert(v, cost),
+        1 => e.or_insert_with(|| v, cost),
+        _ => match e {
+          fibre_cache::AsyncEntry::Occupied(o) => o.get(),
+          fibre_cache::AsyncEntry::Vacant(vac) => vac.insert(v, cost),
+        },
+      };
+      (*r).clone()
+    };
+    if got.wid == my {
+      // the entry was reported vacant and our value inserted
+      if let Some(wid) = self.live.get(&k).copied() {
+        let w = self.w[&wid].clone();
+        if !self.possibly_expired(&w) && !self.cfg.may_forget() {
+          // C12: "An unexpired entry of an unbounded cache is not reported missing"
+          return Err(fail("C12", &api, "unexpired_missing", format!("entry({k}) was vacant although write {wid} is unexpired and the cache is unbounded")));
+        }
+      }
+      let d = self.global_ttl_deadline();
+      self.wrote(k, my, cost, d, self.now);
+      Ok(())
+    } else {
+      // occupied: a read through the entry API (C11 / C12 "every read API including entry")
+      self.check_read(&api, k, Some(&got), Refresh::Possible)
+    }
+  }
+
+  fn do_compute(&mut self, a: bool, k: u32, form: u8) -> Result<(), Failure> {
+    let api = hs(a, "compute");
+    // outcome: Ok(Some(n)) modified (n if the form returns it), Ok(None) not found, Err(()) busy
+    #[derive(Debug)]
+    enum Out {
+      Done(Option<u64>),
+      NotFound,
+      Busy,
+    }
+    let bump = |v: &mut Val| {
+      v.n += 1;
+      v.n
+    };
+    let cr = |r: ComputeResult<u64>| match r {
+      ComputeResult::Ok(n) => Out::Done(Some(n)),
+      ComputeResult::Fail => Out::Busy,
+      ComputeResult::NotFound => Out::NotFound,
+    };
+    let out = match (a, form % 4) {
+      (false, 0) => {
+        if self.cache.compute(&k, |v| {
+          bump(v);
+        }) {
+          Out::Done(None)
+        } else {
+          Out::NotFound
+        }
+      }
+      (false, 1) => match self.cache.try_compute(&k, |v| {
+        bump(v);
+      }) {
+        Some(true) => Out::Done(None),
+        Some(false) => Out::Busy,
+        None => Out::NotFound,
+      },
+      (false, 2) => cr(self.cache.compute_val(&k, |v| bump(v))),
+      (false, _) => cr(self.cache.try_compute_val(&k, |v| bump(v))),
+      (true, 0) => {
+        if block_on(self.ac.compute(&k, |v| {
+          bump(v);
+        })) {
+          Out::Done(None)
+        } else {
+          Out::NotFound
+        }
+      }
+      (true, 1) => match block_on(self.ac.try_compute(&k, |v| {
+        bump(v);
+      })) {
+        Some(true) => Out::Done(None),
+        Some(false) => Out::Busy,
+        None => Out::NotFound,
+      },
+      (true, 2) => cr(block_on(self.ac.compute_val(&k, |v| bump(v)))),
+      (true, _) => cr(block_on(self.ac.try_compute_val(&k, |v| bump(v)))),
+    };
+    let cur = self.live.get(&k).copied();
+    match out {
+      Out::Done(n) => match cur {
+        None => Err(fail("C11", &api, "modified_dead_entry", format!("compute({k}) found and modified an entry although no write of that key is live (removed/cleared/never written)"))),
+        Some(wid) => {
+          let now = self.now;
+          let w = self.w.get_mut(&wid).unwrap();
+          w.n += 1;
+          w.idle_hi = now;
+          // C11: "concurrent read-modify-writes are never lost" (sequential form: each completed compute is visible)
+          if let Some(n) = n {
+            if n != w.n {
+              return Err(fail("C11", &api, "lost_update", format!("compute({k}) saw counter {n} after its own increment, {} computes completed", w.n)));
+            }
+          }
+          self.rep.class("compute_done");
+          Ok(())
+        }
+      },
+      Out::NotFound => {
+        if let Some(wid) = cur {
+          let w = self.w[&wid].clone();
+          if !self.possibly_expired(&w) && !self.cfg.may_forget() {
+            return Err(fail("C12", &api, "unexpired_missing", format!("compute({k}) reported the key missing although write {wid} is unexpired and the cache is unbounded")));
+          }
+        }
+        Ok(())
+      }
+      Out::Busy => {
+        // documented outcome of the try_ forms while another Arc of the value is alive (a loader
+        // thread that is just finishing); no effect
+        self.rep.class("compute_busy");
+        Ok(())
+      }
+    }
+  }
+
+  /// Loader invocations since the last call.
+  fn new_loads(&mut self) -> Vec<LoadRec> {
+    match &self.lstate {
+      None => vec![],
+      Some(st) => {
+        let g = st.log.lock().unwrap();
+        let v = g[self.loads_seen..].to_vec();
+        self.loads_seen = g.len();
+        v
+      }
+    }
+  }
+
+  fn absorb_load(&mut self, l: &LoadRec) {
+    let d = self.cfg.ttl_ms.map(|t| l.at + t * MS);
+    self.wrote(l.key, l.wid, l.cost, d, l.at);
+  }
+
+  fn do_fetch_with(&mut self, a: bool, k: u32) -> Result<(), Failure> {
+    let api = hs(a, "fetch_with");
+    let cur = self.live.get(&k).copied();
+    // (side-effect free here: configurations with a sync loader and a grace window never enable
+    // maintenance_on_introspection)
+    let inserts_before = if self.cfg.loader == LoaderKind::Sync && self.cfg.swr_ms.is_some() { self.cache.metrics().inserts } else { 0 };
+    let got: Val = if a { (*block_on(self.ac.fetch_with(&k))).clone() } else { (*self.cache.fetch_with(&k)).clone() };
+    if let Some(ex) = &self.exec {
+      if !ex.wait_idle(Duration::from_secs(20)) {
+        self.inconclusive += 1;
+      }
+    }
+    let mut loads = self.new_loads();
+    // every load must be for this key
+    if let Some(l) = loads.iter().find(|l| l.key != k) {
+      return Err(fail("C15", &api, "loaded_other_key", format!("fetch_with({k}) invoked the loader for key {}", l.key)));
+    }
+    if cur == Some(got.wid) && got.key == k {
+      // served the resident value
+      let w = self.w[&got.wid].clone();
+      let stale = w.ttl.map_or(false, |d| self.now >= d);
+      if stale {
+        // C12: "with stale-while-revalidate a stale value is served by fetch_with only inside the
+        // grace window and triggers a refresh whose result then replaces it"
+        let in_grace = match (w.ttl, self.cfg.swr_ms) {
+          (Some(d), Some(g)) => self.now < d + g * MS,
+          _ => false,
+        };
+        if !in_grace {
+          let clause = if self.cfg.swr_ms.is_some() { "served_stale_outside_grace" } else { "served_expired_ttl" };
+          return Err(fail("C12", &api, clause, format!("fetch_with({k}) returned write {} at now={} ns, ttl deadline {:?}, grace {:?} ms", got.wid, self.now, w.ttl, self.cfg.swr_ms)));
+        }
+        self.rep.class("swr_stale_served");
+        self.nt12 = true;
+        if got.n != w.n {
+          return Err(fail("C11", &api, "lost_update", format!("key {k}: counter {} vs {} computes", got.n, w.n)));
+        }
+        if loads.is_empty() && self.cfg.loader == LoaderKind::Sync {
+          // the refresh runs on a thread the cache spawned: wait for it (liveness only)
+          let st = self.lstate.clone().unwrap();
+          let deadline = std::time::Instant::now() + Duration::from_secs(5);
+          let mut g = st.log.lock().unwrap();
+          while g.len() <= self.loads_seen && std::time::Instant::now() < deadline {
+            g = st.cv.wait_timeout(g, Duration::from_millis(50)).unwrap().0;
+          }
+          drop(g);
+          loads = self.new_loads();
+          if loads.is_empty() {
+            self.inconclusive += 1;
+            return Ok(());
+          }
+        }
+        if loads.is_empty() {
+          return Err(fail("C12", &api, "stale_served_without_refresh", format!("fetch_with({k}) served the stale write {} inside the grace window but started no refresh (no task spawned, loader never called)", got.wid)));
+        }
+        if loads.len() > 1 {
+          return Err(fail("C15", &api, "duplicate_refresh_load", format!("one stale fetch_with({k}) invoked the loader {} times", loads.len())));
+        }
+        let l = loads[0].clone();
+        if self.cfg.loader == LoaderKind::Sync {
+          // wait until the refreshed entry is in the map (metrics().inserts is bumped after the map
+          // insert); bounded, liveness only
+          let deadline = std::time::Instant::now() + Duration::from_secs(5);
+          while self.cache.metrics().inserts <= inserts_before {
+            if std::time::Instant::now() >= deadline {
+              self.inconclusive += 1;
+              return Ok(());
+            }
+            std::thread::sleep(Duration::from_micros(50));
+          }
+        }
+        self.absorb_load(&l);
+        // "... triggers a refresh whose result then replaces it"
+        let after = self.cache.peek(&k).map(|v| (*v).clone());
+        match &after {
+          Some(v) if v.wid == got.wid => {
+            return Err(fail("C12", &api, "refresh_result_not_visible", format!("key {k}: refresh loaded write {} but peek still returns the stale write {}", l.wid, got.wid)));
+          }
+          _ => {}
+        }
+        return self.check_read(&hs(a, "fetch_with.after_refresh"), k, after.as_ref(), Refresh::No);
+      }
+      // fresh hit: C11 "a fetch_with hit" is a read
+      if !loads.is_empty() {
+        // C15: "the loader runs exactly once per miss" — there was no miss
+        return Err(fail("C15", &api, "load_without_miss", format!("fetch_with({k}) hit the resident write {} and still invoked the loader {} time(s)", got.wid, loads.len())));
+      }
+      return self.check_read(&api, k, Some(&got), Refresh::Definite);
+    }
+    // not the resident value: must be a fresh load
+    match loads.iter().position(|l| l.wid == got.wid) {
+      None => {
+        // neither current nor loaded now: classify through the read oracle (dead / unknown value)
+        self.check_read(&api, k, Some(&got), Refresh::No)?;
+        Err(fail("C11", &api, "returned_unknown_value", format!("fetch_with({k}) returned {got:?}")))
+      }
+      Some(_) => {
+        // C15: "the loader runs exactly once per miss"
+        if loads.len() != 1 {
+          return Err(fail("C15", &api, "loads_per_miss_not_one", format!("a single fetch_with({k}) miss invoked the loader {} times", loads.len())));
+        }
+        if let Some(wid) = cur {
+          let w = self.w[&wid].clone();
+          if !self.possibly_expired(&w) && !self.cfg.may_forget() {
+            return Err(fail("C12", &api, "unexpired_missing", format!("fetch_with({k}) treated the key as missing and loaded although write {wid} is unexpired and the cache is unbounded")));
+          }
+        }
+        // C15: "A later miss after invalidation or expiry triggers exactly one new load"
+        if self.reloaded_keys.contains(&k) {
+          self.nt15 = true;
+        }
+        self.reloaded_keys.insert(k);
+        let l = loads[0].clone();
+        self.absorb_load(&l);
+        self.rep.class("load_on_miss");
+        // C15: "the value becomes resident with its cost" (cost: C13 clauses at quiescence)
+        let after = self.cache.peek(&k).map(|v| (*v).clone());
+        match &after {
+          Some(v) if v.wid == l.wid => Ok(()),
+          None if self.cfg.may_forget() || self.cfg.ttl_ms == Some(0) => Ok(()),
+          other => Err(fail("C15", &api, "loaded_value_not_resident", format!("fetch_with({k}) loaded write {} but right afterwards peek returns {other:?}", l.wid))),
+        }
+      }
+    }
+  }
+
+  // ---- enumerations (C17; values also C11/C12) -------------------------------------------------
+
+  fn focus_or(&self, p: &'static str) -> &'static str {
+    if self.focus == "C17" {
+      "C17"
+    } else {
+      p
+    }
+  }
+
+  fn nonempty_shards(&self) -> usize {
+    let mut s = BTreeSet::new();
+    for k in self.live.keys() {
+      s.insert(key_hash(self.cfg.collide, *k) as usize & (self.cfg.shards - 1));
+    }
+    s.len()
+  }
+
+  fn do_iter(&mut self, kind: IterKind, batch_i: u8, adv: Option<(u16, Adv)>) -> Result<(), Failure> {
+    let batch = BATCHES[batch_i as usize % 6];
+    let api = format!("{kind:?}").to_lowercase();
+    let t0 = self.now;
+    let live_n = self.live.len();
+    if self.nonempty_shards() >= 2 && live_n > if batch == 0 { 64 } else { batch } {
+      self.nt17 = true;
+    }
+    let mut items: Vec<(u32, Val)> = Vec::new();
+    let mut snap_meta: Vec<(u64, Option<u64>)> = Vec::new();
+    let adv_at = adv.map(|(at, a)| (at as usize, a));
+    macro_rules! step {
+      () => {
+        if let Some((at, a)) = adv_at {
+          if items.len() == at {
+            self.advance(a);
+            self.rep.class("iter_with_advance");
+          }
+        }
+      };
+    }
+    match kind {
+      IterKind::Iter => {
+        let c = self.cache.clone();
+        let mut it = if batch == 0 { c.iter() } else { c.iter_with_batch_size(batch) };
+        loop {
+          step!();
+          match it.next() {
+            Some((k, v)) => items.push((k, (*v).clone())),
+            None => break,
+          }
+        }
+      }
+      IterKind::IterSnapshot => {
+        let c = self.cache.clone();
+        let mut it = c.iter_snapshot();
+        loop {
+          step!();
+          match it.next() {
+            Some((k, v)) => items.push((k, (*v).clone())),
+            None => break,
+          }
+        }
+      }
+      IterKind::Stream => {
+        let mut st = if batch == 0 { self.ac.iter_stream() } else { self.ac.iter_stream_with_batch_size(batch) };
+        loop {
+          step!();
+          match stream_next(&mut st) {
+            Some((k, v)) => items.push((k, (*v).clone())),
+            None => break,
+          }
+        }
+      }
+      IterKind::AsyncSnapshot => {
+        let c = self.ac.clone();
+        let mut it = c.iter_snapshot_async();
+        loop {
+          step!();
+          match block_on(it.next()) {
+            Some((k, v)) => items.push((k, (*v).clone())),
+            None => break,
+          }
+        }
+      }
+      IterKind::ToSnapshot | IterKind::ToSnapshotAsync => {
+        let snap = if kind == IterKind::ToSnapshot { self.cache.to_snapshot() } else { block_on(self.ac.to_snapshot()) };
+        let js = serde_json::to_value(&snap).expect("snapshot serialises");
+        for e in js["entries"].as_array().cloned().unwrap_or_default() {
+          let v: Val = serde_json::from_value(e["value"].clone()).expect("value");
+          let k = e["key"].as_u64().unwrap() as u32;
+          let ttl = if e["ttl_remaining"].is_null() { None } else { Some(e["ttl_remaining"]["secs"].as_u64().unwrap() * 1_000_000_000 + e["ttl_remaining"]["nanos"].as_u64().unwrap()) };
+          snap_meta.push((e["cost"].as_u64().unwrap(), ttl));
+          items.push((k, v));
+        }
+      }
+    }
+    self.check_enumeration(&api, &items, t0, if snap_meta.is_empty() { None } else { Some(&snap_meta) })
+  }
+
+  /// `t0`: virtual time when the enumeration started (`self.now` = when it ended).
+  fn check_enumeration(&mut self, api: &str, items: &[(u32, Val)], t0: u64, meta: Option<&[(u64, Option<u64>)]>) -> Result<(), Failure> {
+    let refresh = Refresh::Possible;
+    let mut seen = BTreeSet::new();
+    let t1 = self.now;
+    for (i, (k, v)) in items.iter().enumerate() {
+      if *k == SENTINEL_KEY {
+        continue;
+      }
+      // C17: "enumerate every live entry exactly once"
+      if !seen.insert(*k) {
+        return Err(fail("C17", api, "duplicate_key", format!("key {k} yielded twice")));
+      }
+      // C17: "with its current value and omit expired ones" — judged at the time the enumeration
+      // started: a batch may have been fetched before a later clock step (sound lower bound)
+      self.now = t0;
+      let r = self.check_read(api, *k, Some(v), refresh);
+      self.now = t1;
+      // the enumeration may have touched the entry at any time up to its end (iter_snapshot
+      // reads through fetch): latest possible idle refresh = end of the enumeration
+      if let Some(w) = self.w.get_mut(&v.wid) {
+        if r.is_ok() && w.idle_hi < t1 {
+          w.idle_hi = t1;
+        }
+      }
+      if let Err(mut f) = r {
+        if f.property == "C11" || f.property == "C12" {
+          f.property = self.focus_or(if f.property == "C11" { "C11" } else { "C12" }).to_string();
+        }
+        return Err(f);
+      }
+      if let Some(m) = meta {
+        let (cost, ttl_rem) = m[i];
+        let w = &self.w[&v.wid];
+        // C17: "... the same costs and remaining lifetimes no longer than the originals"
+        if cost != w.cost {
+          return Err(fail("C17", api, "snapshot_cost_mismatch", format!("snapshot entry for key {k} has cost {cost}, inserted with {}", w.cost)));
+        }
+        match (ttl_rem, w.ttl) {
+          (None, None) => {}
+          (Some(r), Some(d)) if t0 + r <= d => {}
+          _ => return Err(fail("C17", api, "snapshot_lifetime_mismatch", format!("snapshot entry for key {k} has ttl_remaining {ttl_rem:?} ns at now={t0}, original deadline {:?}", w.ttl))),
+        }
+      }
+    }
+    // completeness, differential against point reads: a live entry that was not yielded must not be
+    // readable now either (peek does not refresh and does not touch the policy)
+    let missing: Vec<(u32, u64)> = self.live.iter().filter(|(k, _)| !seen.contains(k)).map(|(k, w)| (*k, *w)).collect();
+    for (k, wid) in missing {
+      let got = self.cache.peek(&k).map(|v| (*v).clone());
+      if let Some(v) = &got {
+        if v.wid == wid {
+          return Err(fail("C17", api, "missing_resident_entry", format!("key {k} write {wid} is resident and unexpired (peek returns it) but the enumeration of {} items did not yield it", items.len())));
+        }
+      }
+      self.check_read(&format!("{api}.peek"), k, got.as_ref(), Refresh::No)?;
+    }
+    Ok(())
+  }
+
+  // ---- quiescence (C13) ---------------------------------------------------------------------
+
+  fn do_quiesce(&mut self, prop: &'static str, api: &str) -> Result<(), Failure> {
+    if let Some(ex) = &self.exec {
+      ex.wait_idle(Duration::from_secs(20));
+    }
+    let costs: BTreeMap<u64, u64> = self.w.iter().map(|(k, w)| (*k, w.cost)).collect();
+    let cost_of = move |v: &Val| if v.key == SENTINEL_KEY { Some(0) } else { costs.get(&v.wid).copied() };
+    let possibly_expired: Vec<u32> = self.live.iter().filter(|(_, w)| self.possibly_expired(&self.w[*w])).map(|(k, _)| *k).collect();
+    let mut purged: Vec<(u32, Option<Val>)> = Vec::new();
+    let mut purge = |c: &TCache| {
+      for k in &possibly_expired {
+        purged.push((*k, c.remove(k).map(|v| (*v).clone())));
+      }
+    };
+    for w in self.w.values_mut() {
+      if w.state == WState::Live {
+        w.maint_seen = true;
+      }
+    }
+    self.note_drain(None, u32::MAX);
+    let polname = self.cfg.pol.name();
+    let r = quiesce_check(&self.cache, self.cfg.capacity, &cost_of, &mut purge);
+    // model bookkeeping for the purge (plain removes)
+    for (k, got) in purged {
+      if let (Some(v), Some(wid)) = (&got, self.live.get(&k)) {
+        if v.wid == *wid {
+          self.removed_by_op.push((k, *wid));
+        }
+      }
+      self.kill(k, WState::Removed);
+    }
+    match r {
+      Ok(q) => {
+        self.quiesced = true;
+        self.rep.class("quiesce_checked");
+        if q.passes > 41 {
+          self.rep.class("quiesce_multi_pass");
+        }
+        // the visible residents are reads too (checked before the listener is drained: they were
+        // read before anything the drain may report)
+        let items = q.visible.clone();
+        let t = self.now;
+        self.check_enumeration(&format!("{api}.iter"), &items, t, None)?;
+        self.sync_listener(api)
+      }
+      Err(QuiesceErr::Inconclusive(_)) => {
+        self.inconclusive += 1;
+        Ok(())
+      }
+      Err(QuiesceErr::Violation(clause, msg)) => {
+        // diagnosis: a shard had more un-maintained writes than its 512-slot event buffer holds
+        if clause == "over_capacity" && self.overflowed {
+          return Err(fail(prop, api, "over_capacity_after_event_buffer_overflow", format!("[{polname}] {msg}")));
+        }
+        Err(fail(prop, &format!("{api}/{polname}"), clause, msg))
+      }
+    }
+  }
+
+  // ---- snapshot / restore (C17) ------------------------------------------------------------------
+
+  fn do_restore(&mut self, fmt: u8, pol: Pol, extra: &[(u32, u8)], lifetimes: bool, asnap: bool) -> Result<(), Failure> {
+    use fibre_cache::snapshot::CacheSnapshot;
+    let api = match fmt % 3 {
+      0 => "restore.direct",
+      1 => "restore.json",
+      _ => "restore.bincode",
+    };
+    let t0 = self.now;
+    let snap: CacheSnapshot<u32, Val> = if asnap { block_on(self.ac.to_snapshot()) } else { self.cache.to_snapshot() };
+    let js = serde_json::to_value(&snap).expect("snapshot serialises");
+    let snap = match fmt % 3 {
+      0 => snap,
+      1 => serde_json::from_str(&serde_json::to_string(&snap).unwrap()).map_err(|e| fail("C17", api, "roundtrip_failed", format!("serde_json round trip: {e}")))?,
+      _ => bincode::deserialize(&bincode::serialize(&snap).unwrap()).map_err(|e| fail("C17", api, "roundtrip_failed", format!("bincode round trip: {e}")))?,
+    };
+    // the snapshot itself is an enumeration
+    let mut items = Vec::new();
+    let mut meta = Vec::new();
+    for e in js["entries"].as_array().cloned().unwrap_or_default() {
+      let v: Val = serde_json::from_value(e["value"].clone()).expect("value");
+      let ttl = if e["ttl_remaining"].is_null() { None } else { Some(e["ttl_remaining"]["secs"].as_u64().unwrap() * 1_000_000_000 + e["ttl_remaining"]["nanos"].as_u64().unwrap()) };
+      meta.push((e["cost"].as_u64().unwrap(), ttl));
+      items.push((e["key"].as_u64().unwrap() as u32, v));
+    }
+    self.check_enumeration("restore.to_snapshot", &items, t0, Some(&meta))?;
+    // build the second cache
+    let mut b: TBuilder = TBuilder::new().hasher(FixedState { collide: self.cfg.collide }).janitor_tick_interval(Duration::from_millis(50)).maintenance_chance(1 << 31);
+    if let Some(t) = self.cfg.ttl_ms {
+      b = b.time_to_live(Duration::from_millis(t));
+    }
+    if let Some(t) = self.cfg.tti_ms {
+      b = b.time_to_idle(Duration::from_millis(t));
+    }
+    b = apply_policy(b, pol, self.cfg.capacity, self.cfg.shards);
+    let c2 = b.build_from_snapshot(snap).expect("restore builds");
+    self.rep.class(format!("restore:{}", pol.name()));
+    // C17: "A cache rebuilt from a snapshot, also after a serialization round trip, returns the same
+    // key to value mapping with the same costs"
+    let mut expect_cost = 0u64;
+    let in_snap: BTreeMap<u32, Val> = items.iter().cloned().collect();
+    for (k, v) in &in_snap {
+      expect_cost += self.w[&v.wid].cost;
+      match c2.peek(k) {
+        Some(g) if *g == *v => {}
+        other => return Err(fail("C17", api, "restored_value_mismatch", format!("key {k}: snapshot holds {v:?}, restored cache returns {other:?}"))),
+      }
+    }
+    let got2: Vec<(u32, Val)> = c2.iter().map(|(k, v)| (k, (*v).clone())).collect();
+    if got2.len() != in_snap.len() || got2.iter().any(|(k, v)| in_snap.get(k) != Some(v)) {
+      return Err(fail("C17", api, "restored_mapping_differs", format!("snapshot had {} entries, restored cache enumerates {}", in_snap.len(), got2.len())));
+    }
+    let cc = c2.metrics().current_cost;
+    if cc != expect_cost {
+      return Err(fail("C17", api, "restored_current_cost_mismatch", format!("restored current_cost {cc}, entries cost {expect_cost}")));
+    }
+    // C17: "and from then on honours its capacity like any other cache": further inserts, then the
+    // C13 clauses on the restored cache
+    let mut costs2: BTreeMap<u64, u64> = in_snap.values().map(|v| (v.wid, self.w[&v.wid].cost)).collect();
+    let mut total = expect_cost;
+    for (k, ci) in extra {
+      let v = self.new_val(500 + *k);
+      let c = self.cfg.cost(*ci);
+      costs2.insert(v.wid, c);
+      total += c;
+      c2.insert(500 + *k, v, c);
+    }
+    if let Some(cap) = self.cfg.capacity {
+      if total > cap {
+        self.nt17 = true;
+        self.rep.class("restore_over_capacity");
+      }
+    }
+    let cost_of = |v: &Val| costs2.get(&v.wid).copied();
+    // entries that are possibly expired in the restored cache: purge by remove for exactness
+    let tti = self.tti();
+    let now = self.now;
+    let maybe_exp: Vec<u32> = in_snap.iter().filter(|(_, v)| self.w[&v.wid].ttl.map_or(false, |d| now >= d) || tti.is_some()).map(|(k, _)| *k).collect();
+    let mut purge = |c: &TCache| {
+      if tti.is_some() {
+        return; // restored entries count as just accessed: nothing can be idle-expired yet
+      }
+      for k in &maybe_exp {
+        c.remove(k);
+      }
+    };
+    match quiesce_check(&c2, self.cfg.capacity, &cost_of, &mut purge) {
+      Ok(_) => {}
+      Err(QuiesceErr::Inconclusive(_)) => self.inconclusive += 1,
+      Err(QuiesceErr::Violation(clause, msg)) => {
+        // diagnosis: restored entries and the further inserts share the 512-slot write-event buffer
+        let mut per = vec![0u32; self.cfg.shards];
+        for k in in_snap.keys().copied().chain(extra.iter().map(|(k, _)| 500 + *k)) {
+          per[key_hash(self.cfg.collide, k) as usize & (self.cfg.shards - 1)] += 1;
+        }
+        if clause == "over_capacity" && per.iter().any(|n| *n > 512) {
+          return Err(fail("C17", "restore", "restored_over_capacity_after_event_buffer_overflow", format!("[{api} {}] {msg}", pol.name())));
+        }
+        return Err(fail("C17", &format!("{api}/{}", pol.name()), &format!("restored_{clause}"), msg));
+      }
+    }
+    if lifetimes {
+      // C17: "remaining lifetimes no longer than the originals": at each original TTL deadline the
+      // restored entry must be expired
+      let mut ds: Vec<(u64, u32, u64)> = in_snap.iter().filter_map(|(k, v)| self.w[&v.wid].ttl.map(|d| (d, *k, v.wid))).collect();
+      ds.sort();
+      for (d, k, wid) in ds {
+        if d > self.now {
+          self.now = d;
+          self.clock.store(d, Ordering::SeqCst);
+        }
+        if let Some(g) = c2.peek(&k) {
+          if g.wid == wid {
+            return Err(fail("C17", api, "restored_lifetime_extended", format!("key {k} write {wid}: original TTL deadline {d} ns reached, restored cache still returns it")));
+          }
+        }
+        self.rep.class("restore_lifetime_checked");
+      }
+    }
+    drop(c2);
+    Ok(())
+  }
+
+  // ---- dispatcher ---------------------------------------------------------------------------------
+
+  fn step(&mut self, op: &Op) -> Result<(), Failure> {
+    let mut flush = false;
+    match op {
+      Op::Insert { a, k, c } => {
+        self.do_insert(*a, *k, self.cfg.cost(*c), None);
+        flush = self.cfg.maint_always;
+      }
+      Op::InsertTtl { a, k, c, ttl } => {
+        self.do_insert(*a, *k, self.cfg.cost(*c), Some(TTLS_MS[*ttl as usize % 5]));
+        flush = self.cfg.maint_always;
+      }
+      Op::Remove { a, k } => {
+        self.do_remove(*a, *k, false)?;
+        flush = true;
+      }
+      Op::Invalidate { a, k } => {
+        self.do_remove(*a, *k, true)?;
+        flush = true;
+      }
+      Op::Clear { a } => {
+        if *a {
+          block_on(self.ac.clear());
+        } else {
+          self.cache.clear();
+        }
+        let keys: Vec<u32> = self.live.keys().copied().collect();
+        for k in keys {
+          self.kill(k, WState::Cleared);
+        }
+      }
+      Op::MultiInsert { a, items } => {
+        let mut triples = Vec::new();
+        let mut recs = Vec::new();
+        for (k, c) in items {
+          let v = self.new_val(*k);
+          recs.push((*k, v.wid, self.cfg.cost(*c)));
+          triples.push((*k, v, self.cfg.cost(*c)));
+        }
+        if *a {
+          block_on(self.ac.multi_insert(triples));
+        } else {
+          let c = self.cache.clone();
+          self.pool.install(move || c.multi_insert(triples));
+        }
+        let d = self.global_ttl_deadline();
+        for (k, wid, cost) in recs {
+          self.wrote(k, wid, cost, d, self.now);
+        }
+      }
+      Op::MultiRemove { a, keys, inval } => {
+        let api = hs(*a, "multi_remove");
+        let before: BTreeMap<u32, u64> = keys.iter().filter_map(|k| self.live.get(k).map(|w| (*k, *w))).collect();
+        let got: Option<Vec<(u32, Val)>> = match (*a, *inval) {
+          (false, false) => {
+            let c = self.cache.clone();
+            let ks = keys.clone();
+            Some(self.pool.install(move || c.multi_remove(ks)).into_iter().map(|(k, v)| (k, (*v).clone())).collect())
+          }
+          (true, false) => Some(block_on(self.ac.multi_remove(keys.clone())).into_iter().map(|(k, v)| (k, (*v).clone())).collect()),
+          (false, true) => {
+            let c = self.cache.clone();
+            let ks = keys.clone();
+            self.pool.install(move || c.multi_invalidate(ks));
+            None
+          }
+          (true, true) => {
+            block_on(self.ac.multi_invalidate(keys.clone()));
+            None
+          }
+        };
+        if let Some(got) = got {
+          let mut seen = BTreeSet::new();
+          for (k, v) in &got {
+            if !seen.insert(*k) || v.key != *k || before.get(k) != Some(&v.wid) {
+              return Err(fail("C11", &api, "returned_dead_value", format!("multi_remove returned ({k}, {v:?}); live before: {:?}", before.get(k))));
+            }
+            self.removed_by_op.push((*k, v.wid));
+          }
+          for (k, wid) in &before {
+            if !seen.contains(k) {
+              let w = self.w[wid].clone();
+              if !self.possibly_expired(&w) && !self.cfg.may_forget() {
+                return Err(fail("C12", &api, "unexpired_missing", format!("multi_remove did not find key {k} although write {wid} is unexpired and the cache is unbounded")));
+              }
+            }
+          }
+        } else if self.rec.is_some() {
+          // multi_invalidate returns nothing: which keys were resident is only known for caches
+          // that cannot forget; elsewhere the Invalidated notifications are matched leniently
+          let certain = !self.cfg.may_forget() && !before.values().any(|w| self.possibly_expired(&self.w[w]));
+          for (k, wid) in &before {
+            if certain {
+              self.removed_by_op.push((*k, *wid));
+            } else {
+              self.removed_maybe.push((*k, *wid));
+            }
+          }
+        }
+        for k in keys {
+          self.kill(*k, WState::Removed);
+        }
+        flush = true;
+      }
+      Op::OrInsert { a, k, c, form } => self.do_entry_or_insert(*a, *k, self.cfg.cost(*c), *form)?,
+      Op::Compute { a, k, form } => self.do_compute(*a, *k, *form)?,
+      Op::FetchWith { a, k } => self.do_fetch_with(*a, *k)?,
+      Op::Get { a, k } => {
+        let g = if *a { block_on(self.ac.get(k, |v| v.clone())) } else { self.cache.get(k, |v| v.clone()) };
+        self.check_read(&hs(*a, "get"), *k, g.as_ref(), Refresh::Definite)?;
+      }
+      Op::Fetch { a, k } => {
+        let g = if *a { block_on(self.ac.fetch(k)) } else { self.cache.fetch(k) }.map(|v| (*v).clone());
+        self.check_read(&hs(*a, "fetch"), *k, g.as_ref(), Refresh::Definite)?;
+      }
+      Op::Peek { a, k } => {
+        let g = if *a { block_on(self.ac.peek(k)) } else { self.cache.peek(k) }.map(|v| (*v).clone());
+        self.check_read(&hs(*a, "peek"), *k, g.as_ref(), Refresh::No)?;
+      }
+      Op::EntryGet { a, k } => {
+        let g: Option<Val> = if *a {
+          match block_on(self.ac.entry(*k)) {
+            fibre_cache::AsyncEntry::Occupied(o) => Some((*o.get()).clone()),
+            fibre_cache::AsyncEntry::Vacant(_) => None,
+          }
+        } else {
+          match self.cache.entry(*k) {
+            fibre_cache::Entry::Occupied(o) => Some((*o.get()).clone()),
+            fibre_cache::Entry::Vacant(_) => None,
+          }
+        };
+        self.check_read(&hs(*a, "entry"), *k, g.as_ref(), Refresh::Possible)?;
+      }
+      Op::MultiGet { a, keys } => {
+        let api = hs(*a, "multiget");
+        let got: BTreeMap<u32, Val> = if *a {
+          block_on(self.ac.multiget::<Vec<u32>, u32>(keys.clone())).into_iter().map(|(k, v)| (k, (*v).clone())).collect()
+        } else {
+          let c = self.cache.clone();
+          let ks = keys.clone();
+          self.pool.install(move || c.multiget::<Vec<u32>, u32>(ks)).into_iter().map(|(k, v)| (k, (*v).clone())).collect()
+        };
+        for k in got.keys() {
+          if !keys.contains(k) {
+            return Err(fail("C11", &api, "other_keys_value", format!("multiget({keys:?}) returned unrequested key {k}")));
+          }
+        }
+        let uniq: BTreeSet<u32> = keys.iter().copied().collect();
+        for k in uniq {
+          self.check_read(&api, k, got.get(&k), Refresh::Definite)?;
+        }
+      }
+      Op::Iter { kind, batch, adv } => {
+        self.do_iter(*kind, *batch, *adv)?;
+        flush = self.cfg.introspect;
+      }
+      Op::Maint { a } => {
+        if *a {
+          block_on(self.ac.run_maintenance());
+        } else {
+          self.cache.run_maintenance();
+        }
+        self.note_drain(None, 16);
+        for w in self.w.values_mut() {
+          if w.state == WState::Live {
+            w.maint_seen = true;
+          }
+        }
+        flush = true;
+      }
+      Op::Advance(a) => self.advance(*a),
+      Op::Metrics { a } => {
+        let _ = if *a { self.ac.metrics() } else { self.cache.metrics() };
+        if self.cfg.introspect {
+          self.note_drain(None, u32::MAX);
+        }
+        flush = self.cfg.introspect;
+      }
+      Op::Bulk { n, c, multi } => {
+        let n = BULKS[*n as usize % 8];
+        let cost = self.cfg.cost(*c);
+        if n > 100 {
+          self.burst = true;
+        }
+        let d = self.global_ttl_deadline();
+        if *multi {
+          let mut triples = Vec::new();
+          let mut recs = Vec::new();
+          for i in 0..n {
+            let v = self.new_val(BULK_BASE + i);
+            recs.push((BULK_BASE + i, v.wid));
+            triples.push((BULK_BASE + i, v, cost));
+          }
+          let c = self.cache.clone();
+          self.pool.install(move || c.multi_insert(triples));
+          for (k, wid) in recs {
+            self.wrote(k, wid, cost, d, self.now);
+          }
+        } else {
+          for i in 0..n {
+            let v = self.new_val(BULK_BASE + i);
+            let wid = v.wid;
+            self.cache.insert(BULK_BASE + i, v, cost);
+            self.wrote(BULK_BASE + i, wid, cost, d, self.now);
+            if self.cfg.maint_always {
+              self.note_drain(Some(BULK_BASE + i), 16);
+            }
+          }
+        }
+        self.rep.class(format!("bulk:{n}"));
+        flush = self.cfg.maint_always;
+      }
+      Op::Restore { fmt, pol, extra, lifetimes, asnap } => {
+        self.do_restore(*fmt, *pol, extra, *lifetimes, *asnap)?;
+        flush = self.cfg.introspect;
+      }
+      Op::Quiesce => self.do_quiesce("C13", "quiesce")?,
+    }
+    if self.live.len() > 100 {
+      self.burst = true;
+    }
+    if flush {
+      let name = format!("{op:?}");
+      let name = name.split(|c: char| !c.is_ascii_alphanumeric()).next().unwrap_or("op").to_string();
+      self.sync_listener(&name)?;
+    }
+    Ok(())
+  }
+
+  fn finish(&mut self) -> Result<(), Failure> {
+    self.op_i += 1;
+    self.do_quiesce("C13", "quiesce")?;
+    self.sync_listener("end")?;
+    if let Some(rec) = &self.rec {
+      if !self.burst && self.inconclusive == 0 {
+        // C16 completeness for expiry cleanup, through the cache's own counters: every entry the
+        // janitor removed for TTL/TTI must have produced one Expired notification
+        let m = self.cache.metrics();
+        let g = rec.log.lock().unwrap();
+        let expired = g.iter().filter(|n| n.reason == Reason::Expired).count() as u64;
+        if expired != m.evicted_by_ttl + m.evicted_by_tti {
+          return Err(fail("C16", "listener", "expired_removals_not_all_notified", format!("metrics count {} TTL + {} TTI removals, the drained listener saw {expired} Expired notifications", m.evicted_by_ttl, m.evicted_by_tti)));
+        }
+      }
+    }
+    Ok(())
+  }
+}
+
+pub fn execute(s: &Scenario) -> Result<CaseReport, Failure> {
+  execute_for(s, &crate::current_property())
+}
+
+pub fn execute_for(s: &Scenario, focus: &str) -> Result<CaseReport, Failure> {
+  let run = Box::new(Run::build(s, focus));
+  let mut run = std::mem::ManuallyDrop::new(run);
+  let res = std::panic::catch_unwind(std::panic::AssertUnwindSafe(|| -> Result<(), Failure> {
+    for (i, op) in s.ops.iter().enumerate() {
+      run.op_i = i;
+      if crate::trace_on() {
+        eprintln!("[{i}] now={} {op:?}", run.now);
+      }
+      run.step(op)?;
+    }
+    run.finish()
+  }));
+  let exec = run.exec.clone();
+  let out = match res {
+    Err(p) => {
+      // never drop a possibly corrupted cache while unwinding: leak it
+      let m = crate::panic_msg(&p);
+      Err(Failure::new(focus, format!("E1/cache/panic/{}", crate::panic_site(&m)), format!("panic inside the cache: {m}")))
+    }
+    Ok(r) => {
+      let rep = {
+        let r0 = &mut **run;
+        let mut rep = r0.rep.clone();
+        rep.inconclusive = r0.inconclusive;
+        rep.nontrivial = match focus {
+          // C11 NT: "a key was overwritten or removed and read afterwards"
+          "C11" => r0.nt11,
+          // C12 NT: a read at/after a deadline of an entry the model still holds, or between an
+          // entry's insertion and its deadline after >= 1 maintenance pass
+          "C12" => r0.nt12,
+          // C13 NT: total inserted cost exceeded capacity at some point or an overwrite changed a
+          // cost, and a quiescence check ran
+          "C13" => r0.quiesced && (r0.over_cap_seen || r0.cost_changed),
+          "C15" => r0.nt15,
+          // C16 NT: notifications of at least two different reasons
+          "C16" => r0.reasons.len() >= 2,
+          "C17" => r0.nt17,
+          _ => false,
+        };
+        rep
+      };
+      // orderly teardown
+      let r0 = unsafe { std::mem::ManuallyDrop::take(&mut run) };
+      drop(r0);
+      r.map(|_| rep)
+    }
+  };
+  if let Some(ex) = exec {
+    ex.stop();
+  }
+  out
+}
+
+pub fn check(check: &mut Check) {
+  let ctx = check.ctx.clone();
+  let prop = ctx.property.clone();
+  // development aid (never set by vf): generate with another property's weights
+  let focus = Focus::of(&std::env::var("VERIF_GEN_FOCUS").unwrap_or_else(|_| prop.clone()));
+  let excl = Excl {
+    no_event_overflow: check.findings.open_entries("C13").iter().any(|f| f.id.contains("event-buffer")) && prop == "C13"
+      || check.findings.open_entries(&prop).iter().any(|f| f.id.contains("event-buffer")),
+    no_restore_over_capacity: check.findings.open_entries("C17").iter().any(|f| f.id.contains("restore")),
+  };
+  let cases = match focus {
+    Focus::C17 => ctx.tier.pick(4_000u64, 300_000u64),
+    Focus::C15 => ctx.tier.pick(5_000u64, 300_000u64),
+    _ => ctx.tier.pick(8_000u64, 600_000u64),
+  };
+  let max_ops = ctx.tier.pick(45usize, 90usize);
+  let p2 = prop.clone();
+  let out = vcore::drive(&ctx, &check.findings, 2, cases, move || scenario_strategy(focus, max_ops, excl), move |s| {
+    let r = execute_for(s, &p2);
+    // development aid (never set by vf): only keep failures whose signature contains VERIF_ONLY_SIG
+    if let (Err(f), Ok(only)) = (&r, std::env::var("VERIF_ONLY_SIG")) {
+      if !f.signature.contains(&only) {
+        return Ok(CaseReport::new());
+      }
+    }
+    r
+  });
+  check.absorb(crate::ENGINE_SEQ, out);
+  check.require_class("bounded", 100);
+  check.require_class("unbounded", 100);
+  match focus {
+    Focus::C12 => check.require_class("advance_to_deadline", 500),
+    Focus::C13 => check.require_class("quiesce_checked", 1000),
+    Focus::C16 => {
+      check.require_class("notif:Invalidated", 200);
+      check.require_class("notif:Capacity", 50);
+    }
+    Focus::C15 => check.require_class("load_on_miss", 500),
+    _ => {}
+  }
+}
+
+pub fn assumptions() -> Vec<String> {
+  vec![
+    "E1: one harness thread per case, H3 virtual clock, fixed hasher; the background janitor is configured to (practically) never act or, in maint_always configurations, to act every 50 ms of real time — every clause tolerates maintenance at any moment".into(),
+    "reads that refresh the idle timer for certain: get, fetch, multiget, fetch_with hit; never: peek; entry/compute/iteration/snapshot are treated as 'may refresh' (the property only says peek does not)".into(),
+    "stale-while-revalidate is not combined with an idle timeout (the property does not say whether the grace window extends idle expiry)".into(),
+    "listener completeness is asserted only while fewer than ~100 removals can be pending per operation (the property's 'keeps up' premise); the notification queue is flushed with a zero-cost sentinel entry".into(),
+  ]
+}
+
+pub fn rule_for(p: &str) -> String {
+  let common = "proptest-generated configuration (policy x shards x capacity x TTL/TTI/grace x maintenance mode x listener x loader) plus operation history on the sync and async handle of one cache; distinct = hash of the scenario; ";
+  let nt = match p {
+    "C11" => "non-trivial = a key was overwritten or removed/invalidated/cleared and read afterwards (E1), or >= 2 threads touched the same key (E4)",
+    "C12" => "non-trivial = some read happened at or after a deadline of an entry the model still holds, or a TTL/TTI entry was read after at least one maintenance pass, or a stale value was served inside the grace window",
+    "C13" => "non-trivial = a quiescence check ran and the total inserted cost exceeded the capacity at some point or an overwrite changed a cost (E1); writers/removers/clear/maintenance overlapped on one cache (E4)",
+    "C16" => "non-trivial = the recording listener received notifications of at least two different reasons (E1), or a user remove raced maintenance on the same key (E4)",
+    "C17" => "non-trivial = an enumeration ran over >= 2 non-empty shards with more live entries than the batch size, or a restore was followed by inserts that take the restored cache over capacity",
+    _ => "",
+  };
+  format!("{common}{nt}")
+}
